@@ -345,7 +345,7 @@ impl<'a> Gen<'a> {
     fn str_lit(&mut self) -> String {
         const LITS: &[&str] = &[
             "", "a", "abc", "Hello World", "<b>", "a&b", "it's", "x y z", "\u{e9}t\u{e9}", "\u{1F389}", "line\nbreak", "  pad ", "1", "42", "3.5",
-            "say \"hi\"", "<script>", "/", "a,b,c", "k",
+            "say \"hi\"", "<script>", "/", "a,b,c", "k", "\u{131}x", "\u{fb01}n", "\u{130}", "\u{149}a b", "\u{17f}\u{df}",
         ];
         let s = self.rng.pick(LITS).to_string();
         if self.rng.chance(1, 6) && !s.contains('\'') && !s.contains('\n') && !s.contains('\\') {
